@@ -9,7 +9,8 @@ VERIF = os.path.dirname(os.path.dirname(os.path.abspath(__file__)))
 
 
 def make_replay(pid, o, f, r, repo, scratch):
-    """-> (path, failing_input_found)"""
+    """-> (path, failing_input_found, spurious): spurious = Kani produced a concrete test and it passes natively"""
+    spurious = False
     h = hashlib.sha256(('%s|%s|%s|%s' % (pid, o['name'], f['kind'], f.get('text', ''))).encode()).hexdigest()[:12]
     path = os.path.join(VERIF, 'replays', '%s-%s.json' % (pid, h))
     doc = dict(property=pid, obligation=o['name'], failure_kind=f['kind'], failing_location=f.get('text', ''),
@@ -29,6 +30,9 @@ def make_replay(pid, o, f, r, repo, scratch):
             import kani_unit
             cp = kani_unit.concrete_playback(f['group'], f['harness'], repo, scratch)
             doc['counterexample'] = cp
+            kind = f.get('kind', '')
+            if cp.get('tests') and not cp.get('reproduced') and 'unwind' not in kind and 'unwind' not in (f.get('message') or ''):
+                spurious = True
             if cp.get('reproduced'):
                 found = True
                 doc['failing_input'] = dict(kind='kani concrete playback, executed natively against the crate built from /repo',
@@ -43,7 +47,7 @@ def make_replay(pid, o, f, r, repo, scratch):
     os.makedirs(os.path.dirname(path), exist_ok=True)
     with open(path, 'w') as fh:
         json.dump(doc, fh, indent=1)
-    return path, found
+    return path, found, spurious
 
 
 def replay_file(path, repo):
